@@ -135,3 +135,97 @@ Definition check_read (c : cfg) (handle : N) (resp : list N) : verdict :=
                 | _ => Bad t_decl_value
                 end
        end.
+
+(* ------------------------------------------------------------------ handles reported in responses *)
+(* C04: every handle that a response reports is the handle under which that attribute is accessed.
+   Judged on observed discovery responses (Find Information, Read By Type, Read By Group Type, Find By
+   Type Value): every entry must name a handle of [assign cfg] whose declared attribute is the one the
+   entry describes (type; declaration value incl. the value handle; group end and service uuid). *)
+Definition t_reported_handle := 7%nat.
+
+Fixpoint rh_chunks (fuel : nat) (n : nat) (l : list N) : list (list N) :=
+  match fuel, l with
+  | O, _ | _, [] => []
+  | S f, _ => firstn n l :: rh_chunks f n (skipn n l)
+  end.
+
+Definition rh_w16 (l : list N) (i : nat) : N := nth i l 0 + 256 * nth (S i) l 0.
+
+(* the declared attribute living at handle h of the assignment *)
+Definition attr_at_handle (c : cfg) (h : N) : option (nat * attr) :=
+  let i := index_eq (assign c) h 0 in
+  if i =? invalid_index then None
+  else match nth_error (decl_attrs c) (N.to_nat i) with Some a => Some (N.to_nat i, a) | None => None end.
+
+(* the attribute type as it appears on the air: 2 or 16 bytes *)
+Definition attr_type_bytes (a : attr) : list N :=
+  match a with
+  | AValue _ ch _ _ => uuid_bytes (c_uuid ch)
+  | _ => lo_hi (attr_uuid a)
+  end.
+
+Definition base_uuid_tail : list N := [251; 52; 155; 95; 128; 0; 0; 128; 0; 16; 0; 0].
+(* a 16 byte type that is a 16 bit uuid on the Bluetooth base uuid stands for the 16 bit uuid *)
+Definition norm_type (ty : list N) : list N :=
+  if (length ty =? 16)%nat && listN_eqb (firstn 12 ty) base_uuid_tail && (nth 14 ty 1 =? 0) && (nth 15 ty 1 =? 0)
+  then [nth 12 ty 0; nth 13 ty 0] else ty.
+
+Definition is_prefix (p l : list N) : bool := listN_eqb p (firstn (length p) l).
+
+(* first / last assigned handle of every service *)
+Fixpoint rh_svc_groups (ss : list service_decl) (hs : list N) : list (service_decl * N * N) :=
+  match ss with
+  | [] => []
+  | s :: t =>
+      let n := N.to_nat (svc_nattrs s) in
+      (s, nth 0 hs 0, nth (n - 1) hs 0) :: rh_svc_groups t (skipn n hs)
+  end.
+
+Fixpoint group_at (l : list (service_decl * N * N)) (first : N) : option (service_decl * N) :=
+  match l with
+  | [] => None
+  | (s, f, e) :: t => if f =? first then Some (s, e) else group_at t first
+  end.
+
+(* one (first, last [, uuid]) group entry: a primary service of the declaration with its assigned range *)
+Definition group_entry_ok (c : cfg) (e uuid : list N) (check_uuid : bool) : bool :=
+  match group_at (rh_svc_groups (services c) (assign c)) (rh_w16 e 0) with
+  | Some (s, last) =>
+      negb (s_secondary s) && (rh_w16 e 2 =? last)
+      && (if check_uuid then listN_eqb uuid (uuid_bytes (s_uuid s)) else true)
+  | None => false
+  end.
+
+Definition check_discovery (c : cfg) (pdu resp : list N) : verdict :=
+  let ok (b : bool) := if b then Ok else Bad t_reported_handle in
+  match pdu, resp with
+  | 4 :: _, 5 :: fmt :: rest =>                 (* Find Information *)
+      let size := if fmt =? 1 then 4%nat else 18%nat in
+      ok (forallb (fun e =>
+            (length e =? size)%nat &&
+            match attr_at_handle c (rh_w16 e 0) with
+            | Some (_, a) => listN_eqb (skipn 2 e) (attr_type_bytes a)
+            | None => false
+            end) (rh_chunks (length rest) size rest))
+  | 8 :: _, 9 :: l :: rest =>                   (* Read By Type *)
+      let ty := norm_type (skipn 5 pdu) in
+      ok (forallb (fun e =>
+            (length e =? N.to_nat l)%nat &&
+            match attr_at_handle c (rh_w16 e 0) with
+            | Some (i, a) =>
+                listN_eqb (attr_type_bytes a) ty &&
+                match a with
+                | AService s => is_prefix (skipn 2 e) (uuid_bytes (s_uuid s))
+                | ACharDecl _ _ | AInclude _ =>
+                    match expected_value c i with Some v => is_prefix (skipn 2 e) v | None => false end
+                | _ => true
+                end
+            | None => false
+            end) (rh_chunks (length rest) (N.to_nat l) rest))
+  | 16 :: _, 17 :: l :: rest =>                 (* Read By Group Type *)
+      ok (forallb (fun e => (length e =? N.to_nat l)%nat && group_entry_ok c e (skipn 4 e) true)
+                  (rh_chunks (length rest) (N.to_nat l) rest))
+  | 6 :: _, 7 :: rest =>                        (* Find By Type Value: the value is the service uuid *)
+      ok (forallb (fun e => (length e =? 4)%nat && group_entry_ok c e (skipn 7 pdu) true) (rh_chunks (length rest) 4 rest))
+  | _, _ => Ok
+  end.
